@@ -133,6 +133,39 @@ def run(ctx):
 
     tail_rules(ctx, prog)
 
+    # ---- NARROW-GUARD
+    ctx.rule('NARROW-GUARD', 'in the header writers: where a quantity is converted to a narrower integer type under a range test (the writer chooses a wider field otherwise), the test implies the '
+             'destination range: A-PENT upper bound of the operand at the conversion <= maximum of the destination type (a test against 0xFFFFF before a store into unsigned short truncates)', floor=2)
+    from engine.model import int_type
+    from engine.bounds import Bounds
+    nng = 0
+    for name, f in sorted(wh.items()):
+        bd = None
+        for n in f.walk():
+            if n.get('ck') != 'IntegralCast' or n['k'] != 'ImplicitCastExpr':
+                continue
+            srcn = f.N[n['kids'][0]]
+            ts, td = int_type(srcn.get('t')), int_type(n.get('t'))
+            if not ts or not td or td[0] >= ts[0] or f.unwrap(srcn).get('v') is not None:
+                continue
+            if f.unwrap(srcn)['k'] not in ('MemberExpr', 'DeclRefExpr', 'ConditionalOperator'):
+                continue            # arithmetic on lengths: bounds come from the arithmetic, not from a range test (not decided)
+            pt = f.cfg.point(n)
+            if pt is None:
+                continue
+            if bd is None:
+                bd = Bounds(prog, f, eff)
+            b = bd.ev_at(f.unwrap(srcn), pt)
+            smax = 2 ** (ts[0] - 1) - 1 if ts[1] else 2 ** ts[0] - 1
+            if b.hi is None or b.hi >= smax:
+                continue            # no range test in force: N-dependent length arithmetic, not decided
+            dmax = 2 ** (td[0] - 1) - 1 if td[1] else 2 ** td[0] - 1
+            nng += 1
+            ok = b.hi <= dmax
+            ctx.ob('NARROW-GUARD', '%s:%s' % (name, f.s(srcn)[:50]), ok, f.loc(n), '%s (%s) stored as %s: the range test in force gives <= %d, the destination holds <= %d%s' % (
+                f.s(srcn)[:50], srcn.get('t'), n.get('t'), b.hi, dmax, '' if ok else ' — values in between are truncated and the file describes something else than what was written'), repr(b))
+    ctx.require(nng >= 2, 'only %d guarded narrowing conversions found in the header writers' % nng)
+
     ctx.rule('HDR-NO-POS', 'no function in the write_header slot (nor the tailer writers) reads psf->read_current / psf->write_current: header length fields derive from the frame count and data length only', floor=19)
     for name, f in sorted(wh.items()):
         pos = [n for n in f.walk() if n['k'] == 'MemberExpr' and n.get('rec') == 'sf_private_tag' and n['n'] in ('write_current', 'read_current')]
